@@ -20,7 +20,11 @@ def classify(argv):
     sub = argv[1] if len(argv) > 1 else ""
     if tool == "git":
         if sub == "rev-parse":
+            if any("@{u" in a or "@{upstream" in a for a in argv):
+                return ("git", "query", "upstream")
             return ("git", "query", "is_usable")
+        if sub == "remote":
+            return ("git", "query", "show_remotes")
         if sub == "fetch":
             return ("git", "effect", "fetch")
         if sub == "tag":
@@ -144,7 +148,16 @@ class FakeVCS:
         elif name == "ls_tags_branch":
             out = "".join(l + "\n" for l in self.tags_merged).encode()
         elif name == "status":
-            out = "".join(l + "\n" for l in self.status).encode()
+            if "-z" in argv:
+                out = "".join(l + "\0" for l in self.status).encode()
+            else:
+                out = "".join(l + "\n" for l in self.status).encode()
+        elif name == "upstream":
+            if self.remote == "upstream":
+                out = b"origin/main\n"
+            else:
+                entry["ok"] = True
+                return 128, b"", b"fatal: no upstream configured for branch 'main'"
         elif name == "ls_branches":
             if self.remote == "upstream":
                 out = b"  dev    1234567 [origin/dev] other\n* main   89abcde [origin/main] bump\n"
